@@ -230,7 +230,17 @@ def keys_ok(schedule, chunk, hist, store_ks, upfront) -> bool:
         while isinstance(t, tuple) and t and t[0] == "split":
             t = t[1]
         return t == ("seed",)
-    return all(rooted(k) for k in keys)
+    if not all(rooted(k) for k in keys):
+        return False
+    # independence: no call's key is derived from another call's key (a key that was handed out is never split further by the driver)
+    used = set(keys)
+    for k in keys:
+        t = k
+        while isinstance(t, tuple) and t and t[0] == "split":
+            t = t[1]
+            if t in used:
+                return False
+    return True
 
 
 NH = tuple(c == "1" for c in os.environ.get("NH", "10"))[:NK]          # per-kernel needs_history
